@@ -1,2 +1,43 @@
-"""C07 - see codec_props.py"""
-from .codec_props import run_prop as run
+"""C07 - decoding consumes exactly one encoding and preserves what follows.
+One-shot clause: codec_props.plan_c07; streaming clause (one object per encoding, position after each
+object = end of that encoding): below."""
+import random
+
+from .. import core, tlc, codec_pipeline as P, stream_pipeline as SP, streams as S
+from . import codec_props
+
+CLAUSES = {'Crash', 'SpuriousError', 'ObjectNotDelivered', 'NotStopped', 'UnderrunNotReported', 'WrongObject',
+           'WrongPosition', 'PollAfterEnd', 'EosNotRaised'}
+GEN = dict(kinds=['int', 'octs', 'bits', 'bool', 'null', 'utf8', 'oid', 'real'], tagnums=[0, 31], classes=[2], maxstack=1,
+           shapes=['scalar', 'seqof', 'setof', 'choice', 'deep', 'any'], pool=1,
+           modes=['der', 'cer', 'ber_indef', 'ber_indef_c1', 'v_indefdef', 'v_long', 'v_nestindef'])
+
+
+def run(ctx):
+    codec_props.run_prop(ctx)
+    rnd = random.Random(ctx.seed)
+    with tlc.Scratch('c07s') as sc:
+        cases = P.generate(ctx, sc, GEN, name='MC_gen_streams', invariants=['TypeOK', 'TailPreserved', 'OneTLV'])
+        streams = SP.pick_streams(cases, 40, 60 if ctx.quick else 200, ctx.seed, min_items=2, max_items=4)
+        lay = sorted({(tuple(st.ends), 0, True) for st in streams if st.ends[-1] <= 12})[:3]
+        SP.check_refinement(ctx, sc, lay)
+
+        def jobs_of(st):
+            n = len(st.data)
+            plans = [[n], [1] * n]
+            plans += [[e - (st.ends[i - 1] if i else 0) for i, e in enumerate(st.ends)]]          # item by item
+            for _ in range(6 if ctx.quick else 20):
+                cuts = sorted(rnd.sample(range(1, n), min(n - 1, rnd.randint(1, 5))))
+                plans.append([b - a for a, b in zip([0] + cuts, cuts + [n])])
+            for kind in ('K3', 'K4'):
+                for parts in plans:
+                    yield kind, parts, True, 0, n
+                    yield kind, parts, False, 1, n
+        traces, meta = SP.run_streams(ctx, streams, jobs_of)
+        t2, m2 = SP.run_k2_streams(ctx, streams, first_id=len(traces), limit=20)
+        traces += t2
+        meta.update(m2)
+        SP.finish_streams(ctx, sc, traces, meta, clauses=CLAUSES, name='strace_pos')
+        ctx.rule += ('; streaming clause: streams of 2..4 encodings back to back, whole / octet-wise / item-wise / random '
+                     'arrival plans, kinds K3, K4, K2: one object per encoding and stream position after each object = '
+                     'end of that encoding (K3: raw position, K2: BytesIO.tell), judged by spec/Trace_Stream.tla')
